@@ -228,6 +228,8 @@ class _PD:
 
     @staticmethod
     def Series(vals, name=None, dtype=None):
+        if isinstance(vals, list) and len(vals) > 1:
+            return ("stat-series-n", tuple(vals))
         return ("stat-series", vals[0] if isinstance(vals, list) else vals)
 
 
@@ -307,8 +309,48 @@ class PB:
         return self.tag == tag and (self.pre == 0) and (self.lo == 0) and (self.hi == length)
 
 
+class PStat:
+    """PLAIN encoding of several fixed-width values in one buffer (bits_per_value 64 for INT64, 1 for BOOLEAN - PLAIN
+    booleans are bit-packed): bytes [lo, hi) of it.  Equal to ("plain-stat", v) when it is exactly v's own encoding."""
+
+    def __init__(self, vals, bpv, lo=0, hi=None):
+        self.vals, self.bpv, self.lo = tuple(vals), bpv, lo
+        self.hi = (len(vals) * bpv + 7) // 8 if hi is None else hi
+
+    def __len__(self):
+        return self.hi - self.lo
+
+    def __getitem__(self, k):
+        if not isinstance(k, slice) or k.step is not None:
+            raise HarnessBroken("bytes index %r" % (k,))
+        n = len(self)
+        a = 0 if k.start is None else (k.start if k.start >= 0 else n + k.start)
+        b = n if k.stop is None else (k.stop if k.stop >= 0 else n + k.stop)
+        a = min(max(a, 0), n)
+        b = min(max(b, a), n)
+        return PStat(self.vals, self.bpv, self.lo + a, self.lo + b)
+
+    def __eq__(self, other):
+        if isinstance(other, tuple) and len(other) == 2 and other[0] == "plain-stat":
+            if self.bpv % 8 == 0:
+                w = self.bpv // 8
+                return (self.lo % w == 0 and self.hi == self.lo + w and self.lo // w < len(self.vals)
+                        and self.vals[self.lo // w] == other[1])
+            return len(self.vals) == 1 and self.lo == 0 and self.hi == 1 and self.vals[0] == other[1]
+        return NotImplemented
+
+    def __ne__(self, other):
+        r = self.__eq__(other)
+        return r if r is NotImplemented else not r
+
+    __hash__ = None
+
+
 def _s_enc_plain(data, se):
     ctx = _ctx()
+    if isinstance(data, tuple) and data[0] == "stat-series-n":
+        ctx.stat_encodes.append(data[1])
+        return PStat(data[1], 1 if se.type == parquet_thrift.Type.BOOLEAN else 64)
     if isinstance(data, tuple) and data[0] == "stat-series":
         ctx.stat_encodes.append(data[1])
         if isinstance(data[1], PB):
@@ -339,6 +381,8 @@ class _PDs(_PD):
     def Series(vals, name=None, dtype=None):
         if isinstance(vals, _Categories):
             return vals
+        if isinstance(vals, list) and len(vals) > 1:
+            return ("stat-series-n", tuple(vals))
         return ("stat-series", vals[0] if isinstance(vals, list) else vals)
 
 
@@ -634,6 +678,45 @@ def replay_h_bytes_stats(n, lmax, lmin, utf8, **kw):
             return True, "text column with a largest value of %d bytes and a smallest of %d bytes: stored max is %d " \
                          "bytes, stored min is %d bytes (not the values)" % (len(enc(want_max)), len(enc(want_min)),
                                                                            len(st.max), len(st.min))
+        return False, "statistics exact"
+    finally:
+        shutil.rmtree(d, ignore_errors=True)
+
+
+def h_bool_stats(n: int, vmax: bool, vmin: bool, h0: int, h1: int, v0: int) -> bool:
+    """
+    pre: 1 <= n < LIM and 1 <= h0 < LIM and 1 <= h1 < LIM and 0 <= v0 < LIM and (vmax or not vmin)
+    post: __return__
+    """
+    # a boolean column (PLAIN booleans are bit-packed, one bit per value): each bound is the encoding of that one value
+    data = SymSeries(n, [0, 0, 0], n, np.dtype("bool"), "x", 0, vmax, vmin)
+    f = SymFile(0)
+    ctx = Ctx([h0, h1, 1, 1], [0, 0, 0], [v0, 0, 0], [0, 0, 0], 0, 0)
+    wc = build(ctx, f)
+    se = parquet_thrift.SchemaElement(type=parquet_thrift.Type.BOOLEAN, name="x", repetition_type=0)
+    chunk = wc(f, data, se, compression=None, datapage_version=1, stats=True)
+    st = chunk.meta_data.statistics
+    if st is None:
+        return False
+    return st.max == ("plain-stat", vmax) and st.min == ("plain-stat", vmin)
+
+
+def replay_h_bool_stats(n, vmax, vmin, **kw):
+    import shutil, tempfile
+    import fastparquet
+    vals = [bool(vmax), bool(vmin)] + [bool(vmin)] * min(max(n - 2, 0), 3)
+    d = tempfile.mkdtemp(prefix="c04-")
+    try:
+        fn = os.path.join(d, "t.parq")
+        fastparquet.write(fn, pd.DataFrame({"x": vals}), stats=True)
+        pf = fastparquet.ParquetFile(fn)
+        st = pf.row_groups[0].columns[0].meta_data.statistics
+        want = (bytes([1 if max(vals) else 0]), bytes([1 if min(vals) else 0]))
+        got = (bytes(st.max) if st.max is not None else None, bytes(st.min) if st.min is not None else None)
+        s = pf.statistics
+        if got != want or s["max"]["x"] != [max(vals)] or s["min"]["x"] != [min(vals)]:
+            return True, "boolean column %r: stored max/min bytes %r (want %r), reported max=%r min=%r" % (
+                vals, got, want, s["max"]["x"], s["min"]["x"])
         return False, "statistics exact"
     finally:
         shutil.rmtree(d, ignore_errors=True)
